@@ -21,6 +21,8 @@ def main():
     tier = os.environ.get("VERIF_TIER") if sys.argv[2] not in ("quick", "thorough") else sys.argv[2]
     if tier not in ("quick", "thorough"):
         tier = "quick"
+    import shutil
+    shutil.rmtree(os.path.join(V.BUILD, "replays", pid), ignore_errors=True)
     ev = V.Evidence(pid, tier, seed, mod.LEVEL)
     ev.assumptions = list(getattr(mod, "ASSUMPTIONS", []))
     try:
